@@ -666,6 +666,34 @@ func (e *Env) Metrics() [8]int64 {
 		int64(m.DataMsgDropNotSelectedCount()), int64(m.AsyncSendErrCount()), m.Reconnecting(), int64(m.Reconnects())}
 }
 
+// WaitSettled polls until the data-sent getter equals the data frames the peers have read (the
+// increment follows the write by a few instructions on another goroutine) and every call that
+// returned a result implying "on the wire" has its wire event recorded.
+func (e *Env) WaitSettled(d time.Duration) bool {
+	dl := time.Now().Add(d)
+	for time.Now().Before(dl) {
+		var peer int64
+		for _, p := range e.Peers() {
+			peer += p.DataRecv.Load()
+		}
+		ok := int64(e.Conn.Metrics().DataMsgSendCount()) == peer
+		for _, c := range e.Calls() {
+			select {
+			case <-c.done:
+				if c.Kind != KAsync && (c.Res == ROk || c.Res == RReply || c.Res == RReject || c.Res == RTimer) && atomic.LoadInt32(&c.WireGen) < 0 {
+					ok = false
+				}
+			default:
+			}
+		}
+		if ok {
+			return true
+		}
+		time.Sleep(200 * time.Microsecond)
+	}
+	return false
+}
+
 // Snapshot records the metrics getters. quiet: the harness has brought the connection to a
 // quiescent Selected or closed point (every call returned, state stable).
 func (e *Env) Snapshot(quiet bool) [8]int64 {
@@ -691,6 +719,7 @@ func (e *Env) WaitReconnectingZero(d time.Duration) bool {
 // Raw W/E/T/U/D/S events were recorded live; A and C events are inserted here: A at the call's
 // start time, C at its end time; then the per-call order is canonicalised (see Canon).
 func (e *Env) Finish() []Event {
+	e.WaitSettled(2 * time.Second)
 	e.mu.Lock()
 	evs := append([]Event(nil), e.events...)
 	calls := make([]*Call, 0, len(e.calls))
